@@ -119,6 +119,55 @@ Example C05_thrift_duplex_example :
   List.filter is_rd evs = unpack_events [216; 216] /\ c_read (crun (mkCtr 7 9) evs) = 432.
 Proof. repeat split; reflexivity. Qed.
 
+(* ---- both directions at once, both counters and both reset sites explicit ----
+   Pack and Unpack of one protocol object are two sequential programs (reset site, Writes /
+   Reads through the counter, size site) whose events interleave in ANY order; [sites] says
+   which counter(s) each reset site zeroes. For the sites of the code (binary and struct:
+   Pack zeroes the write counter, Unpack the read counter) every packed and every unpacked
+   message is reported with the byte length of its own frame, in every interleaving, from
+   every counter state - whatever the other direction does, whenever it does it. *)
+Theorem C05_thrift_bin_sizes_own : sizes_own bin_sites.
+Proof. exact (sites_sizes_own bin_sites eq_refl eq_refl). Qed.
+Print Assumptions C05_thrift_bin_sizes_own.
+
+Theorem C05_thrift_struct_sizes_own : sizes_own struct_sites.
+Proof. exact (sites_sizes_own struct_sites eq_refl eq_refl). Qed.
+Print Assumptions C05_thrift_struct_sizes_own.
+
+(* and these are the ONLY sites with that property: each of the eight other choices (a reset
+   through ReadWriteCounter.Zero on either side, the other side's counter, ...) reports a wrong
+   size on the execution [cross_witness] *)
+Theorem C05_thrift_sizes_own_iff : forall s,
+  sizes_own s <-> (pack_zero s = ZW /\ unpack_zero s = ZR).
+Proof. exact sites_sizes_own_iff. Qed.
+Print Assumptions C05_thrift_sizes_own_iff.
+
+(* Unpack zeroing the whole shared counter (seeded change C05-r5m1): an Unpack that begins
+   between the two Writes of a Pack (4-byte frame length, 72 bytes of payload) makes the Pack
+   report 72 for its frame of 76 bytes *)
+Theorem C05_thrift_unpack_zero_both_refuted :
+  exists evs c,
+    List.filter pside evs = pack_trace [4; 72] /\ List.filter uside evs = unpack_trace [76] /\
+    List.filter is_opacked (xrun (mkSites ZW ZB) c evs) = [OPacked 72].
+Proof. exact unpack_zero_both_refuted. Qed.
+Print Assumptions C05_thrift_unpack_zero_both_refuted.
+
+(* Pack zeroing the whole shared counter (C05-r3m2, C14-r5m1), in the same machine *)
+Theorem C05_thrift_pack_zero_both_refuted :
+  exists evs c,
+    List.filter pside evs = pack_trace [50] /\ List.filter uside evs = unpack_trace [216; 216] /\
+    List.filter is_ounpacked (xrun (mkSites ZB ZR) c evs) = [OUnpacked 216].
+Proof. exact pack_zero_both_refuted. Qed.
+Print Assumptions C05_thrift_pack_zero_both_refuted.
+
+(* non-vacuity: the witness execution is an interleaving of two whole Packs with two whole
+   Unpacks, and the sites of the code report 76, 1 and 8, 2 on it *)
+Example C05_thrift_cross_example :
+  List.filter pside cross_witness = concat (map pack_trace [[4; 72]; [1]]) /\
+  List.filter uside cross_witness = concat (map unpack_trace [[3; 5]; [2]]) /\
+  xrun struct_sites (mkCtr 7 9) cross_witness = [OPacked 76; OPacked 1; OUnpacked 8; OUnpacked 2].
+Proof. repeat split; reflexivity. Qed.
+
 (* the two defects that were repaired *)
 Theorem C05_thrift_size_cumulative_prefix_refuted :
   exists frames, nth 1 (sizes_cumulative 0 frames) 0 <> blen (nth 1 frames []).
